@@ -5,9 +5,10 @@ import ClaripyProofs.Lemmas.VSA.Signed
 import ClaripyProofs.Lemmas.VSA.NormalForm
 import ClaripyProofs.Lemmas.VSA.SextSound
 import ClaripyProofs.Lemmas.VSA.AndXor
+import ClaripyProofs.Lemmas.VSA.ConcatSound
 /-!
 The structural soundness theorem of `convBV`/`convB` with the *proved* interval operations discharged:
-`add, sub, neg, not, and, or, xor, zero_extend, sign_extend, extract, udiv, shl, lshr, union (If), ULT/ULE/UGT/UGE,
+`add, sub, neg, not, and, or, xor, concat, zero_extend, sign_extend, extract, udiv, shl, lshr, union (If), ULT/ULE/UGT/UGE,
 SLT/SLE/SGT/SGE`.
 The induction also carries constructor-normal form (`Nrm`), which the signed orderings need.  What is left as a hypothesis
 (`OpsRest`) is consulted only at nodes that use one of the remaining operations, so ASTs inside the proved fragment get
@@ -34,8 +35,6 @@ structure OpsRest : Prop where
   bin : ∀ (op : BinOp) (a b r : SI) (o o' : Orders), restBin op = true → a.WF → b.WF → a.bits = b.bits →
     applyBin op a b o = .ok (r, o') →
     ((r.WF ∧ r.bits = a.bits) ∧ Nrm r) ∧ ∀ x y v, a.mem x → b.mem y → concBin op a.bits x y = some v → r.mem v
-  concat : ∀ (a b r : SI), a.WF → b.WF → a.concat b = .ok r →
-    ((r.WF ∧ r.bits = a.bits + b.bits) ∧ Nrm r) ∧ ∀ x y, a.mem x → b.mem y → r.mem (Conc.concat b.bits x y)
   meet : ∀ (a b r : SI) (x : Nat), a.WF → b.WF → a.bits = b.bits → a.intersection b = .ok r → a.mem x → b.mem x →
     r.bottom = false
 
@@ -51,7 +50,7 @@ def usesRestBV : BV → Bool
   | .zext _ a => usesRestBV a
   | .sext _ a => usesRestBV a
   | .extract _ _ a => usesRestBV a
-  | .concat _ _ => true
+  | .concat a b => usesRestBV a || usesRestBV b
   | .ite c a b => usesRestB c || usesRestBV a || usesRestBV b
 def usesRestB : BExp → Bool
   | .lit _ => false
@@ -573,10 +572,14 @@ theorem convBV_rest_good (anno : Nat → SI) (env : Nat → Nat)
     obtain ⟨r, h3, h⟩ := bind_ok _ _ _ h
     have := pure_ok _ _ h
     cases this
-    have H := R (by simp [usesRestBV])
-    obtain ⟨⟨⟨wa, ba⟩, ma⟩, na⟩ := convBV_rest_good anno env hctx hnrm a o p1.1 p1.2 (fun _ => H) hdef.1 hwt.1 h1
-    obtain ⟨⟨⟨wb, bb⟩, mb⟩, nb⟩ := convBV_rest_good anno env hctx hnrm b p1.2 p2.1 p2.2 (fun _ => H) hdef.2 hwt.2 h2
-    obtain ⟨⟨⟨wr, br⟩, nr⟩, mr⟩ := H.concat p1.1.si p2.1.si r wa wb h3
+    have Ra : usesRestBV a = true → OpsRest := fun hh => R (by simp [usesRestBV, hh])
+    have Rb : usesRestBV b = true → OpsRest := fun hh => R (by simp [usesRestBV, hh])
+    obtain ⟨⟨⟨wa, ba⟩, ma⟩, na⟩ := convBV_rest_good anno env hctx hnrm a o p1.1 p1.2 Ra hdef.1 hwt.1 h1
+    obtain ⟨⟨⟨wb, bb⟩, mb⟩, nb⟩ := convBV_rest_good anno env hctx hnrm b p1.2 p2.1 p2.2 Rb hdef.2 hwt.2 h2
+    obtain ⟨x0, hx0⟩ := defBV_some env a hdef.1
+    obtain ⟨y0, hy0⟩ := defBV_some env b hdef.2
+    obtain ⟨⟨⟨wr, br⟩, nr'⟩, mr⟩ := concat_sound p1.1.si p2.1.si r wa wb (ma x0 hx0).1.1 (mb y0 hy0).1.1 h3
+    have nr := nr' nb
     refine ⟨?_, nr⟩
     refine ⟨⟨wr, by rw [br, ba, bb]; rfl⟩, ?_⟩
     intro v hv
